@@ -109,13 +109,17 @@ func checkC12(c *Ctx) error {
 	return nil
 }
 
+var cbMapMu sync.Mutex
+
 // cbDecoy: two methods with one ordinary parameter and an omitted trailing one (options map / helper context)
 type cbDecoy struct{ bad *string }
 
 func (d cbDecoy) Tag(x interface{}, opts map[string]interface{}) string {
+	cbMapMu.Lock()
 	if opts == nil || len(opts) != 0 {
-		*d.bad = fmt.Sprintf("a decoy method's omitted options map arrived as %#v", opts)
+		*d.bad = fmt.Sprintf("a decoy method's omitted options map arrived nil or with %d entries", len(opts))
 	}
+	cbMapMu.Unlock()
 	return ""
 }
 
@@ -197,6 +201,8 @@ func c12Run(c *Ctx, raw json.RawMessage) {
 			}
 			v := a.Interface()
 			if m, ok := v.(map[string]interface{}); ok && m != nil {
+				// (should one map reach calls in several goroutines, the harness at least must not race on it)
+				cbMapMu.Lock()
 				// record a copy, then write into the map the way helpers fill in defaults: a map
 				// supplied automatically must be a fresh one for every call
 				cp := make(map[string]interface{}, len(m))
@@ -204,6 +210,7 @@ func c12Run(c *Ctx, raw json.RawMessage) {
 					cp[k] = x
 				}
 				m["seen-by-helper"] = true
+				cbMapMu.Unlock()
 				v = cp
 			}
 			received = append(received, v)
@@ -260,9 +267,11 @@ func c12Run(c *Ctx, raw json.RawMessage) {
 			v := args[len(args)-1].Interface()
 			switch t := v.(type) {
 			case map[string]interface{}:
+				cbMapMu.Lock()
 				if t == nil || len(t) != 0 {
-					decoyBad = fmt.Sprintf("a decoy's omitted options map arrived as %#v", v)
+					decoyBad = fmt.Sprintf("a decoy's omitted options map arrived nil or with %d entries", len(t))
 				}
+				cbMapMu.Unlock()
 			case plush.HelperContext:
 				if t.Context == nil {
 					decoyBad = "a decoy's omitted helper context arrived empty"
